@@ -40,6 +40,14 @@ func ParseDateTime(value string) (DateTime, error) {
 	value = strings.TrimPrefix(value, "@")
 	for _, l := range dateTimeLayouts {
 		if t, err = time.Parse(l, value); err == nil {
+			// a fraction with other than three digits (10:00:00.5): keep it
+			// visible, at the millisecond step size of the DateTime type.
+			if l == dtSecondLayoutTZ && t.Nanosecond() != 0 {
+				return DateTime{t.Truncate(time.Millisecond), dtMillisecondLayoutTZ}, nil
+			}
+			if l == dtSecondLayout && t.Nanosecond() != 0 {
+				return DateTime{t.Truncate(time.Millisecond), dtMillisecondLayout}, nil
+			}
 			return DateTime{t, layout(l)}, nil
 		}
 	}
